@@ -115,7 +115,7 @@ def run(ctx, res):
                 'None and empty user messages, codes negative / 0 / positive / +-2^63); non-trivial = distinct reply lines')
     res.exhaustive = True
     res.exhaustive_note = 'the (method, exception class) matrix is enumerated completely; payloads are sampled'
-    reps = 3 if ctx.tier == 'quick' else 40
+    reps = 3 if ctx.tier == 'quick' else 150
     cases = []
     allcls = [(c, False) for c in LIB] + [(c, False) for c in ('RuntimeError', 'ValueError', 'KeyError', 'UserDefined')] + [(c, True) for c in LIB]
     for meth in METHODS:
